@@ -6,7 +6,7 @@ import (
 
 func init() {
 	sim.Register("C08", "lifecycle", 1, func(s *sim.Sim) {
-		w := runLifecycle(s, lifecycleOpts{kinds: []lcKind{kindClassic, kindBasic}, maxActors: 5, zones: []string{"", "a", "b"}, faults: true})
+		w := runLifecycle(s, lifecycleOpts{kinds: []lcKind{kindClassic, kindBasic}, maxActors: 5, zones: []string{"", "a", "b"}, faults: true, ghosts: s.Chance(0.5, "ghosts")})
 		if len(w.actors) >= 2 && s.Probes["cas-retried"] > 0 {
 			s.Nontrivial = true
 		}
